@@ -984,6 +984,8 @@ def check(ctx: Ctx):
     check_fixture(ctx)
     from ..rules import purity as _pur
 
+    # module-level containers reached through a local alias and modified in place (`settings = DEFAULTS; settings |= …`)
+    _pur.check_stateless(ctx, list(ENTRY))
     _pur.check_mutable_defaults(ctx, ("droplets.image_analysis", "droplets.emulsions", "droplets.droplets", "droplets.droplet_tracks", "droplets.trackers"))
     from ..rules import support as _sup_r11
 
